@@ -19,7 +19,7 @@ func TestC09_Replicas(t *testing.T) {
 	rec.AddRule("rapid state machine over shuttermint call histories (apphist generator: 1-5 genesis keypers, all thresholds, votes on pooled candidate configurations, DKG result votes, check-ins, block-seen, DKG messages, replays, garbage, CheckTx interleaved) executed on 4 replicas; non-trivial = history in which some tally had two values at or over the threshold when consulted (order-sensitive decision exercised) or a configuration was accepted after a vote split; distinct by canonical history string")
 	rec.Assume("Go's per-range map iteration randomisation samples iteration orders; orders are not enumerated")
 	steps := 40
-	runRapid(t, N(400, 20000), func(rt *rapid.T) {
+	runRapid(t, N(1200, 30000), func(rt *rapid.T) {
 		g := genGenesis(rt)
 		c := NewChain(g, 4, func(sig, f string, a ...any) { fatalf(rt, sig, f, a...) })
 		c.CheckReplicas = true
